@@ -278,7 +278,7 @@ Print Assumptions C16_desymref_last_write.
    `forward` is the reference result that the real pass is compared with on every generated block *)
 Theorem C16_desymref_forward : forall (outv : nat -> Z) (usef : nat -> list Z -> Z) (init : nat -> Z) ops sy fe ue,
   wf_block ops [] = true ->
-  run outv usef init (forward ops [] []) sy fe ue = run outv usef init ops sy fe ue.
+  sym_run outv usef init (forward ops [] []) sy fe ue = sym_run outv usef init ops sy fe ue.
 Proof. exact forward_preserves_block. Qed.
 Print Assumptions C16_desymref_forward.
 
